@@ -101,6 +101,10 @@ func (f *sourceFile) info() targetInfo {
 	return f.targetInfo
 }
 
+func (f *sourceFile) setInfo(info targetInfo) {
+	f.targetInfo = info
+}
+
 func (f *sourceFile) upToDate() (bool, string, diff.ValueDiff, error) {
 	sum, err := fileSum(f.path)
 	if err != nil && !os.IsNotExist(err) {
